@@ -73,7 +73,29 @@ TEAR_MODES = ["byte", "byte", "byte", "line", "line", "zero", "last_byte"]
 GARBAGE_MODES = ["empty", "random_bytes", "header_only", "drop_rows", "dup_row", "extra_country", "perturb_digit",
                  "other_table", "nan_cells", "delete"]
 EXTRA_NAMES = ["old_csv.csv", "head_count_csv.csv.tmp", ".~lock.meat_csv.csv#", "population_csv (copy).csv",
-               "computer_readable_combined.csv.bak"]
+               "computer_readable_combined.csv.bak",
+               # a stale but well-formed table under a name an older revision might have used, and partial temp
+               # files an interrupted writer might have left next to an output
+               "crop_macros_csv.csv", "macros_csv.part", "macros_csv.csv.part", "nuclear_winter_csv.part"]
+
+
+def _extra_content(name):
+    """Bytes of a leftover file: a copy / a line-aligned prefix of a shipped table where the name suggests one."""
+    import os
+
+    def shipped(fn):
+        with open(os.path.join(core.REPO_DIR, "data", "no_food_trade", "processed_data", fn), "rb") as f:
+            return f.read()
+
+    if name == "crop_macros_csv.csv":
+        return shipped("macros_csv.csv")
+    if name.endswith(".part"):
+        base = name[: -len(".part")]
+        base = base if base.endswith(".csv") else base + ".csv"
+        b = shipped(base)
+        cut = b.rfind(b"\n", 0, max(1, len(b) // 3)) + 1
+        return b[:cut]
+    return b"iso3,country,leftover\nAAA,Nowhere,1\n"
 
 
 def prepare():
@@ -170,6 +192,8 @@ def generate(seed, h, tier):
                 chosen.append(f)
         spec["garbage"] = [{"file": f, "mode": modes[i % len(modes)], "seed": r.randrange(2 ** 31)} for i, f in enumerate(sorted(chosen))]
         spec["extras"] = sorted(set(r.pick(EXTRA_NAMES) for _ in range(r.randrange(3))))
+        if h == 3:
+            spec["extras"] = sorted(EXTRA_NAMES)  # the all-dirty history also carries every kind of leftover
         if r.chance(0.5):  # leftovers of an out-of-order partial run on the dirty directory
             cheap = [s for s in engine_i.DOC_ORDER if s not in ("create_seaweed_csv.py", "create_nuclear_winter_csv.py",
                                                                 "create_crop_macros_csv.py")]
@@ -234,7 +258,7 @@ def execute(spec):
             sc.garbage(g["file"], g["mode"], g["seed"], shipped)
             fired("garbage:" + g["mode"])
         for name in spec["extras"]:
-            sc.write(engine_i.PROC + "/" + name, b"iso3,country,leftover\nAAA,Nowhere,1\n")
+            sc.write(engine_i.PROC + "/" + name, _extra_content(name))
             fired("leftover_file")
         for s in spec["prelude"]:
             faulty_phase_run(s, "prelude")
